@@ -479,7 +479,15 @@ def covers(raw, out):
                 if k == "roles":
                     if k not in out[i]:
                         return False
-                    continue          # role feature dicts are expanded with defaults by the library
+                    # role feature dicts are expanded with defaults by the library: every announced feature must survive
+                    for r, rd in x.items():
+                        got = ((out[i][k].get(r) or {}).get("features") or {}) if isinstance(out[i][k], dict) else {}
+                        if r not in out[i][k]:
+                            return False
+                        for f, fv in ((rd or {}).get("features") or {}).items():
+                            if fv is True and got.get(f) is not True:
+                                return False
+                    continue
                 if k not in out[i]:
                     if x in (False, "", [], {}, None) or (k, x) in (("match", "exact"), ("invoke", "single")):
                         continue          # default values may be omitted by marshal()
